@@ -3,8 +3,8 @@ package main
 func init() {
 	plans["C12"] = Plan{Pkg: pkg("C12"), Steps: []Step{
 		// reference sender (policy None) -> gopcua server / client channel; ~15 ms per stream
-		{Run: "TestReassembly", Quick: 3200, Thorough: 60000, QShards: 8, TShards: 16},
+		{Run: "TestReassembly", Quick: 2400, Thorough: 60000, QShards: 16, TShards: 16},
 		// genuine gopcua sender under Basic256Sha256 steered across the wrap; ~30 ms per case (RSA handshake)
-		{Run: "TestSteered", Quick: 640, Thorough: 8000, QShards: 8, TShards: 16},
+		{Run: "TestSteered", Quick: 480, Thorough: 8000, QShards: 16, TShards: 16},
 	}}
 }
